@@ -2,6 +2,7 @@
    Property theorems only; proofs live in Proofs/V2CoordProofs.v, the model in Model/V2Coord.v. *)
 From Verif Require Import Base.Util Model.V2Coord Proofs.V2CoordProofs Model.V2CoordPlugin Proofs.V2CoordPluginProofs.
 From Verif Require Import Base.GenIR Gen.GeneratedTr Proofs.GenTrV2Coord.
+From Verif Require Import Base.GenIR Gen.GeneratedTr Proofs.GenTrV2b.
 Open Scope N_scope.
 
 (* shouldUpdate is the strict part of the total order [ble] on (check block, transmit block)
@@ -307,6 +308,32 @@ Theorem C17_gen_IsTransmissionConfirmed_decisions :
   = ([], RetB (is_confirmed now s k)).
 Proof. exact gen_v2_IsTransmissionConfirmed. Qed.
 Print Assumptions C17_gen_IsTransmissionConfirmed_decisions.
+
+End GenTie.
+
+Section GenTie.
+Local Open Scope Z_scope.
+(* ---- Tie to the source by translation (Gen/GeneratedTr.v, regenerated from /repo on every run by gen/translate.go) ----
+   g_* are the decision terms translated from the CURRENT Go code: every condition, the branch structure and which
+   white-listed effect statement runs on which path.  The theorems below state that the model's functions - about
+   which every theorem above speaks - are the interpretation of these terms. *)
+(* BasicEncoder.After(a, b): a > b numerically; unparsable keys are an error *)
+Theorem C17_gen_After_decisions :
+  forall a b : N,
+  g_v2_After true true (cmpN a b) = ([], RetB (b <? a)%N) /\
+  (forall c q, g_v2_After false q c = ([], RetO 1)) /\ (forall c, g_v2_After true false c = ([], RetO 1)).
+Proof. exact gen_v2_After. Qed.
+Print Assumptions C17_gen_After_decisions.
+
+(* v2 ShouldAcceptFinalizedReport / ShouldTransmitAcceptedReport: every key accepted (an error stops), worth transmitting as soon as one key is not confirmed *)
+Theorem C17_gen_report_calls :
+  forall n_bytes (decode_err : bool) n_keys (accept_err confirmed : bool),
+  g_v2_accept_report n_bytes decode_err n_keys =
+    (if n_bytes =? 0 then ([], RetO 0) else if decode_err then ([1], RetO 2) else if n_keys =? 0 then ([1], RetO 3) else ([1; 2], RetO 1)) /\
+  g_v2_accept_report_body accept_err = (if accept_err then ([1], RetO 2) else ([1], Fall)) /\
+  g_v2_transmit_report_body confirmed = (if confirmed then ([], Fall) else ([], RetO 1)).
+Proof. exact gen_v2_report_calls. Qed.
+Print Assumptions C17_gen_report_calls.
 
 End GenTie.
 
